@@ -84,6 +84,10 @@ def pointwise(sess, inst, ev, max_points=1 << 14, sols=None):
         out["status"] = "no-single-record(%d)" % len(recs)
         return out
     rec = recs[0]
+    if ev.get("outcome") != "ok" and len(rec.batches) < rec.n_randsets:
+        # the call raised before every rand set was lowered: the formula seen at the hook is incomplete
+        out["status"] = "call-aborted-before-all-batches"
+        return out
     if call.domain_size() > max_points:
         out["status"] = "domain-too-large"
         return out
@@ -207,6 +211,9 @@ def pointwise_sampled(sess, inst, ev, seeds_env, rng, n=120):
         out["status"] = "random-size-list"
         return out
     rec = recs[0]
+    if ev.get("outcome") != "ok" and len(rec.batches) < rec.n_randsets:
+        out["status"] = "call-aborted-before-all-batches"
+        return out
     lm = leaf_model_map(sess, inst, call, ev)
     paths = [p for p, _ in call.rand_leaves]
     types = dict(call.rand_leaves)
